@@ -1,5 +1,6 @@
 """property id -> check function(tier, replay) for everything that is not a plain board-trace check"""
 import enginefam
+import searchfam
 import tablefam
 import tablesfam
 import textfam
@@ -7,7 +8,10 @@ import textfam
 CHECKS = {
     "C04": tablesfam.check,
     "C07": enginefam.check_c07,
+    "C08": searchfam.check_c08,
     "C09": enginefam.check_c09,
+    "C10": searchfam.check_c10,
+    "C11": searchfam.check_c11,
     "C12": textfam.check_c12,
     "C15": textfam.check_c15,
     "C16": enginefam.check_c16,
